@@ -435,6 +435,54 @@ def arith_cases(rnd, n):
     return out
 
 
+def opshape_programs():
+    """special operators given malformed shapes AFTER well-formed, effectful parts: what the operator checks before it
+    evaluates anything, what it checks as it goes, and which error wins.  Every variant is one program: the form under a
+    catch-all handler, the effect transcript (note) and the value or condition probed."""
+    NOTE = [S("defun"), S("note"), [S("x")], [S("probe"), Q(S("note")), S("x")], S("x")]
+    N = lambda x: [S("note"), x]
+    H = lambda body: [S("lambda"), [S("c"), S("&rest"), S("r")]] + body
+    forms = []
+    for th in ("thread-first", "thread-last"):
+        for bad in (5, Q([S("list")]), [], S("sym"), STR("s")):
+            forms += [[S(th), 1, [S("note")], bad], [S(th), 1, bad, [S("note")]], [S(th), N(1), [S("note")], [S("list"), 2], bad],
+                      [S(th), N(1), bad]]
+        forms += [[S(th), N(1)], [S(th)], [S(th), N(3), [S("list"), 1], [S("car")]], [S(th), Q([[S("+"), 1, 2]]), [S("car")], [S("list")]]]
+    for lt in ("let", "let*"):
+        forms += [[S(lt), [[S("a"), N(1)], [S("b")]], S("a")], [S(lt), [[S("a"), N(1)], 5], S("a")], [S(lt), [[S("a"), N(1)], [S("b"), 1, 2]], S("a")],
+                  [S(lt), 5, N(1)], [S(lt), [[5, N(1)]], N(2)], [S(lt), [[S("true"), N(1)]], N(2)], [S(lt), [[S("a"), N(1)], [S("false"), N(2)]], N(3)],
+                  [S(lt), [[S(":k"), N(1)]], N(2)], [S(lt), [[S("a"), N(1)], [S("a"), N(2)]], S("a")], [S(lt), [], N(1)], [S(lt), [[S("a"), N(1)]]],
+                  [S(lt), [[S("a"), N(1)], [S("b"), [S("car"), 5]], [S("c"), N(3)]], N(4)], [S(lt)]]
+    for fl in ("flet", "labels"):
+        forms += [[S(fl), [[S("f"), [S("x")], N(S("x"))], 5], [S("f"), 1]], [S(fl), [[S("f")]], N(1)], [S(fl), [[5, [S("x")], S("x")]], N(1)],
+                  [S(fl), [[S("f"), 5, 1]], N(1)], [S(fl), 5, N(1)], [S(fl), [[S("f"), [S("x"), S("x")], S("x")]], [S("f"), 1, 2]],
+                  [S(fl), [[S("f"), [S("&rest")], 1]], N(1)], [S(fl), [[S("f"), [S("x")], S("x")], [S("f"), [S("y")], [S("list"), S("y")]]], [S("f"), 1]],
+                  [S(fl), [[S("true"), [S("x")], S("x")]], N(1)], [S(fl), [], N(1)], [S(fl)]]
+    forms += [[S("cond"), [N([]), 1], 5], [S("cond"), [N([]), 1], []], [S("cond"), [S("else"), N(1)], [N(2), 3]], [S("cond"), [N([])]], [S("cond"), [N(1)]],
+              [S("cond"), [N(1), N(2), N(3)]], [S("cond")], [S("cond"), 5, [N(1), 2]], [S("cond"), [S(":else"), N(1)]], [S("cond"), [S("true"), N(1)], [N(2), 3]],
+              [S("cond"), [N([]), 1], [S("else")]]]
+    forms += [[S("dotimes"), [S("i"), N(2)], N(S("i"))], [S("dotimes"), [S("i")], N(1)], [S("dotimes"), [5, 2], N(1)], [S("dotimes"), [S("i"), STR("x")], N(1)],
+              [S("dotimes"), S("i"), N(1)], [S("dotimes"), [S("i"), N(2), N(S("i")), 4], N(1)], [S("dotimes"), [S("i"), -1, N(S("i"))], N(1)],
+              [S("dotimes"), [S("i"), 2, N(S("i"))]], [S("dotimes"), [S("true"), 2], N(1)], [S("dotimes")], [S("dotimes"), [S("i"), [S("car"), 5]], N(1)]]
+    forms += [[S("handler-bind"), [[S("c"), H([1])], 5], N(1)], [S("handler-bind"), 5, N(1)], [S("handler-bind"), [[S("c")]], [S("error"), Q(S("c")), N(1)]],
+              [S("handler-bind"), [[5, H([1])]], [S("error"), Q(S("c")), N(1)]], [S("handler-bind"), [[S("c"), N(5)]], [S("error"), Q(S("c")), N(1)]],
+              [S("handler-bind"), [[S("c"), H([N(7)]), 9]], [S("error"), Q(S("c")), N(1)]], [S("handler-bind"), []], [S("handler-bind"), [], N(1), N(2)], [S("handler-bind")],
+              [S("handler-bind"), [[S("c"), [S("car"), 5]]], [S("error"), Q(S("c")), N(1)]], [S("handler-bind"), [[S("c"), [S("car"), 5]]], N(1)]]
+    forms += [[S("if"), N(1), 2], [S("if"), N(1)], [S("if"), N(1), 2, 3, 4], [S("if")], [S("set!"), 5, N(1)], [S("set!"), S("unbound-here"), N(1)], [S("set!"), S("true"), N(1)],
+              [S("set!"), S("note")], [S("set!"), Q(S("x")), N(1)], [S("lambda"), 5, 1], [S("lambda"), [S("x"), S("&rest")], S("x")], [S("lambda"), [S("&optional")], 1],
+              [S("lambda"), [S("x"), S("x")], S("x")], [S("lambda"), [S("&rest"), S("a"), S("b")], 1], [S("lambda"), [S("&key")], 1], [S("lambda"), [5], 1], [S("lambda")],
+              [S("lambda"), [S("&optional"), S("a"), S("&optional"), S("b")], 1], [S("lambda"), [S("&rest"), S("r"), S("&key"), S("k")], 1], [S("lambda"), [S("true")], 1],
+              [[S("lambda"), [S("x"), S("&optional"), S("y")], [S("list"), S("x"), S("y")]], N(1)], [S("quote")], [S("quote"), 1, 2], [S("quasiquote")], [S("quasiquote"), 1, 2],
+              [S("progn")], [S("and")], [S("or")], [S("and"), N(1), N([]), N(3)], [S("or"), N([]), N(S("false")), N(3), N(4)], [S("ignore-errors")],
+              [S("defun"), 5, [], 1], [S("defun"), S("f"), 5, 1], [S("defun"), S("f")], [S("defmacro"), S("m"), 5, 1], [S("defun"), S("true"), [], 1],
+              [S("macrolet"), [[S("m"), [S("x")], N(S("x"))], 5], [S("m"), 1]], [S("macrolet"), 5, N(1)], [S("macrolet"), [[S("m")]], N(1)], [S("macrolet"), [[5, [], 1]], N(1)], [S("macrolet"), [], N(1)]]
+    out = []
+    for f in forms:
+        guarded = [S("handler-bind"), [[S("condition"), H([[S("list"), Q(S("caught")), S("c")]])]], f]
+        out.append([NOTE, [S("probe"), Q(S("r")), guarded], [S("probe"), Q(S("after")), N(0)]])
+    return out
+
+
 def run(tier):
     V = Verdict("C01", tier)
     work = Work("C01")
@@ -466,6 +514,8 @@ def _run(V, work, tier):
         if w[1] in ("T", "N") and w[0] not in ("if-cond",):
             for mutual in (False, True):
                 progs_.append(("closure-loop", closure_loop_program(w, mutual)))
+    for f in opshape_programs():
+        progs_.append(("opshape", f))
     recs, drv = [], []
     for i, (kind, forms) in enumerate(progs_):
         recs.append(mach.prog_record(i, [forms], {}))
